@@ -5,6 +5,7 @@ import GrVerif.Model.Position
 import GrVerif.Proofs.IndexPerm
 import GrVerif.Proofs.PassGid
 import GrVerif.Proofs.CursorShape
+import GrVerif.Proofs.Total
 namespace Driver.Shape
 open GrVerif.Vm GrVerif.Seg GrVerif.Action GrVerif.Pass Driver
 
@@ -93,7 +94,8 @@ def step (line : String) : String :=
                            aMirror := ((field ws "mirror").bind String.toNat?).getD 0 }
       let dir := ((field ws "dir").bind String.toNat?).getD 0
       -- the executable hypothesis of `no_write_through_a_null_cursor` (Props/C02): every rule's code passes the loader's cursor tests
-      (if fontOK font then "curok=1 " else "curok=0 ") ++
+      -- … and of `pipeline_never_faults`: the rule code decodes into modelled opcodes, the positioning-pass index is a pass index
+      (if fontOK font && fontFull font && decide (font.ipos ≤ font.passes.size) then "curok=1 " else "curok=0 ") ++
       match shape font text.toList 100000 dir with
       | .error w => "fault " ++ w
       | .ok none => "trie=" ++ String.join ((ps.splitOn "|").zip passes |>.map fun (src, p) => trieBit p (parsePats src)) ++ " noseg"
